@@ -194,6 +194,22 @@ pub fn check(sc: &Scenario, ex: &mut Exec) -> (Verdict, Option<String>) {
     let row_privacy = sc.pu.entries.iter().any(|e| e.field == ROW_PRIVACY);
     let protected_in_from = q.from.iter().filter(|f| sc.is_protected(&f.table)).count();
     let rowpriv_join = row_privacy && protected_in_from >= 2;
+    // an outer join whose result has more rows than the larger of its two declared input sizes:
+    // Join::size bounds every join on a unique key by max(l, r), forgetting the preserved rows
+    // without partner, and the noisy sums are clamped to that size
+    let outer_join_oversize = {
+        let has_outer = q.from.iter().any(|f| f.kind == "LEFT JOIN" || f.kind == "FULL JOIN");
+        let s_max = q.from.iter().filter_map(|f| sc.tables.iter().find(|t| t.name == f.table)).map(|t| t.size).max().unwrap_or(0);
+        let n_join = if has_outer {
+            ex.query(&mut eng, "join_rows", &format!("SELECT count(*) AS n FROM {}", q.from_clause_flat()), &plan)
+                .ok()
+                .and_then(|(rs, _)| rs.rows.first().and_then(|r| num(&r[0])))
+                .unwrap_or(0.0)
+        } else {
+            0.0
+        };
+        has_outer && n_join > s_max as f64
+    };
 
     let mut key_idx_o: Vec<usize> = q.keys.iter().filter_map(|k| orig_s.col(&k.alias)).collect();
     let mut key_idx_d: Vec<usize> = q.keys.iter().filter_map(|k| dp.col(&k.alias)).collect();
@@ -392,6 +408,9 @@ pub fn check(sc: &Scenario, ex: &mut Exec) -> (Verdict, Option<String>) {
                 let mut class = "unclassified".to_string();
                 if rowpriv_join {
                     class = "rowpriv_join".into();
+                } else if outer_join_oversize && matches!(a.f, AggFn::CountStar | AggFn::Count | AggFn::Sum | AggFn::Avg | AggFn::Var | AggFn::Std) && d.zip(o).map_or(true, |(d, o)| d.abs() <= o.abs() + 1e-9 || a.f == AggFn::Avg || a.f == AggFn::Var || a.f == AggFn::Std) {
+                    // known finding: the clamp of the noisy sums at the under-estimated join size
+                    class = "outer_join_size".into();
                 } else if a.arg.contains(" / 2.0") && !a.arg.contains("cast(") {
                     // known finding: the float literal 2.0 is rendered `2`, integer / 2 divides integers
                     class = "integer_valued_float_literal".into();
